@@ -72,3 +72,8 @@ add("C09", "c09", "exploration", 1500, 40000, exhaustive_if=["ScopePairsSmallUni
 
 add("C19", "c19", "exploration", 1000, 30000,
     assumptions=["helpers are simulated by a HelperRunner function (the exec-based runner is not exercised)", "the reference precedence function in c19_test.go transcribes the property statement"])
+
+add("C07", "c07", "exploration", 400, 10000, exhaustive_if=[],
+    assumptions=["real loopback HTTP, one httptest server per hop, statuses observed by a tap transport on every hop",
+                 "multi-%w joins are not generated (MarshalError documents that it picks one); error bodies stay below the client's documented 8 KiB limit",
+                 "BlobWriter methods are not carriers (the property names Interface methods)"])
